@@ -237,8 +237,8 @@ def _user_mh_classes():
 
     class LazyListMH(MetaHandlerGenerator):
         """A user-written list generator (0-2 elements) that hands GengyList its elements in an
-        unusual but legal form: as a generator, by appending after creation, or from a buffer
-        list that it clears and reuses afterwards."""
+        unusual but legal form: as a generator, by appending after creation, from a buffer
+        list that it clears and reuses afterwards, or as `library-made list + [more elements]`."""
 
         def __init__(self, mode):
             self.mode = mode
@@ -249,6 +249,10 @@ def _user_mh_classes():
             from geneticengine.solutions.tree import GengyList
 
             inner = get_generic_parameter(base_type)
+            if self.mode == "extend":
+                # a list the library built (and labelled) itself, extended with `+` by further elements
+                first = rec(base_type)
+                return first + [rec(inner) for _ in range(random.randint(0, 2))]
             elems = [rec(inner) for _ in range(random.randint(0, 2))]
             if self.mode == "generator":
                 return GengyList(inner, (e for e in elems))
@@ -708,7 +712,7 @@ def _class_field(draw, fl: Flags, targets: list[str], abstracts: list[str]):
     if k == "idmh":
         return ["ann", ref, ["UserMH", "identity"]]
     if k == "lazymh":
-        return ["ann", ["list", ref], ["UserMH", "lazy_list", draw(st.sampled_from(["generator", "append", "buffer"]))]]
+        return ["ann", ["list", ref], ["UserMH", "lazy_list", draw(st.sampled_from(["generator", "append", "buffer", "extend"]))]]
     raise AssertionError(k)
 
 
@@ -840,6 +844,25 @@ def specs(draw, fl: Flags | None = None):
         if draw(st.booleans()):
             alts.reverse()
         new_conc(draw(st.sampled_from(abs_names)), [["f0", ["union", alts]]])
+    if fl.deep_standalone and fl.unions and fl.standalone_concretes and not fl.class_fields_only and draw(st.integers(0, 5)) == 0:
+        # a ring of stand-alone productions that reference each other directly (no abstract type on the
+        # cycle), every link with a shallow escape: S_k(f0: Union[S_next, int]), S_last -> S_first
+        n_ring = draw(st.integers(3, 7))
+        ring = [new_conc(None, []) for _ in range(n_ring)]
+        esc = ["ann", ["int"], ["IntRange", 0, 1]]
+        for j, r in enumerate(ring):
+            alts = [["ref", ring[(j + 1) % n_ring]["name"]], esc]
+            if draw(st.booleans()):
+                alts.reverse()
+            r["fields"] = [["f0", ["union", alts]]]
+        if draw(st.booleans()):
+            # declaration order is a separate draw (the analysis iterates over sets of classes)
+            k = draw(st.integers(0, n_ring - 1))
+            idx = [concretes.index(r) for r in ring]
+            rot = ring[k:] + ring[:k]
+            for i, r in zip(idx, rot):
+                concretes[i] = r
+        new_conc(draw(st.sampled_from(abs_names)), [["f0", ["ref", ring[0]["name"]]]])
     if fl.infeasible and fl.dependent and not fl.class_fields_only and not fl.finite_choice and draw(st.integers(0, 3)) == 0:
         # a backtracking trap: non-terminal T0 -> TF | TD where TF can never be completed (its dependent
         # refinement has no admissible value) although the grammar analysis counts it as the shallow
